@@ -18,6 +18,7 @@ type SVal struct {
 	sort  string
 	isNil bool
 	addr  string // struct variable resident in memory, not loaded yet (t == "")
+	st    *State // when set: the state to load addr from (a loop-body local named inside prev(): its current value)
 }
 
 func isStructType(t types.Type) bool {
@@ -30,6 +31,8 @@ type Env struct {
 	st    *State
 	old   *State
 	prev  *State // state at the head of the current loop iteration (step clauses)
+	cur   *State // inside prev(): the state at the back edge (variables declared in the loop body are read there)
+	loop  *loopInfo
 	bound map[string]SVal
 	lvals map[string]lval // names that denote memory (captured variables at call sites)
 	fn    *ssa.Function   // function whose locals are visible (nil at call sites)
@@ -93,7 +96,11 @@ func specSort(name string) string {
 func (e *enc) evalSpec(x SExpr, env *Env) SVal {
 	v := e.evalRaw(x, env)
 	if v.addr != "" && v.t == "" {
-		v.t = e.loadValue(env.st, v.addr, v.typ)
+		st := env.st
+		if v.st != nil {
+			st = v.st
+		}
+		v.t = e.loadValue(st, v.addr, v.typ)
 		v.addr = ""
 	}
 	return v
@@ -430,10 +437,14 @@ func (e *enc) selectField(v SVal, name string, env *Env) SVal {
 		if cur.addr != "" && cur.t == "" {
 			// struct resident in memory: address arithmetic, load only the leaf
 			fa := e.mkFld(cur.addr, fieldID(f))
+			lst := env.st
+			if cur.st != nil {
+				lst = cur.st
+			}
 			if isStructType(f.Type()) {
-				cur = SVal{addr: fa, typ: f.Type(), sort: sortOf(f.Type())}
+				cur = SVal{addr: fa, typ: f.Type(), sort: sortOf(f.Type()), st: cur.st}
 			} else {
-				cur = SVal{t: e.specLoad(env.st, fa, f.Type()), typ: f.Type(), sort: sortOf(f.Type())}
+				cur = SVal{t: e.specLoad(lst, fa, f.Type()), typ: f.Type(), sort: sortOf(f.Type())}
 			}
 			continue
 		}
@@ -614,9 +625,23 @@ func (e *enc) evalCall(n *SCall, env *Env) SVal {
 		if env.prev == nil {
 			env.fail("prev() is only meaningful in loop step clauses")
 		}
+		// prev(e): e at the head of the iteration - every variable, also those declared in the loop body (their
+		// storage then holds what the previous iteration left). cur(e) inside prev() goes back to the state at the
+		// back edge: prev(m[cur(k)]) reads the OLD map at the CURRENT key.
 		env2 := *env
 		env2.st = env.prev
+		if env2.cur == nil {
+			env2.cur = env.st
+		}
 		return e.evalSpec(n.args[0], &env2)
+	}
+	if n.fun == "cur" {
+		if env.cur == nil {
+			env.fail("cur() is only meaningful inside prev()")
+		}
+		env3 := *env
+		env3.st, env3.cur = env.cur, nil
+		return e.evalSpec(n.args[0], &env3)
 	}
 	switch n.fun {
 	case "len":
@@ -767,6 +792,16 @@ func (e *enc) evalCall(n *SCall, env *Env) SVal {
 		// decimal rendering of an integer (fmt.Sprint of an integer operand)
 		e.declareFun("dec", "(Int) Str")
 		return SVal{t: fmt.Sprintf("(dec %s)", arg(0).t), sort: "Str", typ: types.Typ[types.String]}
+	case "sent":
+		if len(n.args) != 1 {
+			env.fail("sent(<channel>) takes one argument")
+		}
+		name := specPathText(n.args[0])
+		cell, ok := e.sentCounters[name]
+		if !ok {
+			env.fail("sent(" + name + "): not a channel name known to this contract")
+		}
+		return SVal{t: e.get(env.st, cell, "Int"), sort: "Int"}
 	case "strlt":
 		return SVal{t: fmt.Sprintf("(strlt %s %s)", arg(0).t, arg(1).t), sort: "Bool"}
 	case "hasPrefix":
@@ -1147,4 +1182,15 @@ func (e *enc) specLoad(st *State, addr string, t types.Type) string {
 		}
 	}
 	return v
+}
+
+// specPathText: the source text of an identifier or selector path (a.b.c) in a specification.
+func specPathText(x SExpr) string {
+	switch n := x.(type) {
+	case *SIdent:
+		return n.name
+	case *SSel:
+		return specPathText(n.x) + "." + n.name
+	}
+	return "?"
 }
